@@ -47,11 +47,12 @@ type caseT struct {
 	PubNames []string
 	Handlers []hspec
 	PerChan  int
+	Phase2   bool // second round of messages carrying a context captured in another handler
 	Msgs     map[string]mspec
 	Wait     bool // wait for each settlement before emitting the next on the same channel
 }
 
-var topics = []string{"t0", "t1", "t2"}
+var topics = []string{"t0", "t1", "t2", ""}
 
 func genCase(t *rapid.T) caseT {
 	c := caseT{Msgs: map[string]mspec{}}
@@ -64,9 +65,14 @@ func genCase(t *rapid.T) caseT {
 		c.PubNames = append(c.PubNames, rapid.SampledFrom([]string{"", fmt.Sprintf("pub#%d", i), "same-name"}).Draw(t, "pubName"))
 	}
 	nh := rapid.IntRange(1, 6).Draw(t, "nHandlers")
+	emptyName := rapid.IntRange(-4, nh-1).Draw(t, "handlerWithEmptyName")
 	for i := 0; i < nh; i++ {
+		name := fmt.Sprintf("h%d", i)
+		if i == emptyName {
+			name = "" // AddHandler accepts the empty name
+		}
 		h := hspec{
-			Name:     fmt.Sprintf("h%d", i),
+			Name:     name,
 			Sub:      rapid.IntRange(0, ns-1).Draw(t, "sub"),
 			SubTopic: rapid.SampledFrom(topics).Draw(t, "subTopic"),
 			Pub:      rapid.IntRange(-1, np-1).Draw(t, "pub"),
@@ -79,8 +85,9 @@ func genCase(t *rapid.T) caseT {
 	}
 	c.PerChan = rapid.IntRange(1, 3).Draw(t, "msgsPerSubscription")
 	c.Wait = rapid.Bool().Draw(t, "waitSettle")
+	c.Phase2 = rapid.Bool().Draw(t, "foreignContextRound")
 	for ch := 0; ch < nh; ch++ {
-		for k := 0; k < c.PerChan; k++ {
+		for k := 0; k < c.PerChan+1; k++ {
 			c.Msgs[fmt.Sprintf("c%d-%d", ch, k)] = mspec{
 				Outs:   rapid.IntRange(0, 3).Draw(t, "outs"),
 				Shared: rapid.IntRange(0, 3).Draw(t, "shared") == 0,
@@ -93,9 +100,9 @@ func genCase(t *rapid.T) caseT {
 
 func (c caseT) canon() string {
 	var b strings.Builder
-	fmt.Fprintf(&b, "%q|%q|%d|%v|", c.SubNames, c.PubNames, c.PerChan, c.Wait)
+	fmt.Fprintf(&b, "%q|%q|%d|%v|%v|", c.SubNames, c.PubNames, c.PerChan, c.Wait, c.Phase2)
 	for _, h := range c.Handlers {
-		fmt.Fprintf(&b, "%d,%s,%d,%s,%v;", h.Sub, h.SubTopic, h.Pub, h.PubTopic, h.AppendMW)
+		fmt.Fprintf(&b, "%q,%d,%s,%d,%s,%v;", h.Name, h.Sub, h.SubTopic, h.Pub, h.PubTopic, h.AppendMW)
 	}
 	for ch := 0; ch < len(c.Handlers); ch++ {
 		for k := 0; k < c.PerChan; k++ {
@@ -121,6 +128,7 @@ func (p plainPub) Close() error                                        { return 
 
 type handled struct {
 	handler string
+	ctx     context.Context
 	outs    []*message.Message
 	snaps   []lib.Snap
 	ctxVals [5]string
@@ -187,7 +195,7 @@ func runCase(t *rapid.T, c caseT) {
 					o.Metadata.Set("h", hs.Name)
 				}
 			}
-			rec := handled{handler: hs.Name, outs: append([]*message.Message(nil), outs...), ctxVals: ctxVals(msg.Context())}
+			rec := handled{handler: hs.Name, ctx: msg.Context(), outs: append([]*message.Message(nil), outs...), ctxVals: ctxVals(msg.Context())}
 			for _, o := range outs {
 				rec.snaps = append(rec.snaps, lib.SnapOf(o))
 			}
@@ -302,6 +310,35 @@ func runCase(t *rapid.T, c caseT) {
 	for tag, d := range deliveries {
 		if _, ok := d.Wait(2 * lib.Live); !ok {
 			t.Fatalf("violation: message %s never settled", tag)
+		}
+	}
+	if c.Phase2 && len(chans) > 1 {
+		// a transport may hand over a context that already went through another handler
+		// (e.g. an in-process relay that keeps the consumed message's context)
+		for i, ch := range chans {
+			donorTag := fmt.Sprintf("c%d-0", chans[(i+1)%len(chans)].id)
+			mu.Lock()
+			var donor context.Context
+			if recs := handledBy[donorTag]; len(recs) == 1 {
+				donor = recs[0].ctx
+			}
+			mu.Unlock()
+			if donor == nil {
+				continue
+			}
+			tag := fmt.Sprintf("c%d-%d", ch.id, c.PerChan)
+			m := message.NewMessage("u-"+tag, []byte("p-"+tag))
+			m.Metadata.Set("tag", tag)
+			m.SetContext(donor)
+			d, ok := ch.s.Emit(m, tag, 0, lib.Live)
+			if !ok {
+				t.Fatalf("harness: router did not take message %s", tag)
+			}
+			deliveries[tag] = d
+			tagChan[tag] = ch
+			if _, ok := d.Wait(2 * lib.Live); !ok {
+				t.Fatalf("violation: message %s never settled", tag)
+			}
 		}
 	}
 	time.Sleep(200 * time.Microsecond)
